@@ -25,14 +25,17 @@ Init == /\ tid \in 1..Len(Batch) /\ l = 1
 PairStr(a, b) == ListOpen \o a \o ListSep \o b \o ListClose
 LastN(seq, k) == SubSeq(seq, Len(seq) - k + 1, Len(seq))
 
+(* a value >= 100 stands for a two-item list (156 is <<5, 6>>): an argument that is itself a list *)
+ValStr(v) == IF v >= 100 THEN PairStr(IntStr((v - 100) \div 10), IntStr(v % 10)) ELSE IntStr(v)
+
 (* what the program prints for one history item, given the state after it *)
 Printed(h, s2) ==
     LET d == s2.delivered
-    IN CASE h.a = "E" -> IntStr(d[Len(d)].v) \o <<10>>
-         [] h.a = "P" /\ h.k = 1 -> IntStr(d[Len(d)].v) \o <<10>>
-         [] h.a = "P" /\ h.k = 2 -> PairStr(IntStr(d[Len(d)].v), IntStr(d[Len(d) - 1].v)) \o <<10>>
+    IN CASE h.a = "E" -> ValStr(d[Len(d)].v) \o <<10>>
+         [] h.a = "P" /\ h.k = 1 -> ValStr(d[Len(d)].v) \o <<10>>
+         [] h.a = "P" /\ h.k = 2 -> PairStr(ValStr(d[Len(d)].v), ValStr(d[Len(d) - 1].v)) \o <<10>>
          [] h.a = "P" /\ h.k = 3 ->
-              PairStr(IntStr(d[Len(d)].v), PairStr(IntStr(d[Len(d) - 1].v), IntStr(d[Len(d) - 2].v))) \o <<10>>
+              PairStr(ValStr(d[Len(d)].v), PairStr(ValStr(d[Len(d) - 1].v), ValStr(d[Len(d) - 2].v))) \o <<10>>
          [] OTHER -> <<>>
 
 VARIABLE text
